@@ -104,7 +104,8 @@ def run_engine_once(binary, args, env=None, timeout=None):
     if env:
         e.update(env)
     try:
-        p = subprocess.run([binary] + args, stdout=subprocess.PIPE, stderr=subprocess.PIPE, text=True, env=e, timeout=timeout, errors='replace')
+        cmd = (list(binary) if isinstance(binary, (list, tuple)) else [binary]) + args
+        p = subprocess.run(cmd, cwd=(HARNESS if isinstance(binary, (list, tuple)) else None), stdout=subprocess.PIPE, stderr=subprocess.PIPE, text=True, env=e, timeout=timeout, errors='replace')
         return p.returncode, p.stdout, p.stderr
     except subprocess.TimeoutExpired as ex:
         return -999, (ex.stdout or b'').decode(errors='replace') if isinstance(ex.stdout, bytes) else (ex.stdout or ''), 'TIMEOUT'
@@ -127,7 +128,7 @@ def run_engine(binary, mode, tier, shards=1, env=None, timeout=3600, extra_args=
                 raise Machinery(f"engine {binary} shard {i} died with status {rc} but survived the traced re-run (nondeterministic crash)\n{err[-2000:]}")
             if last is None:
                 raise Machinery(f"engine {binary} shard {i} died with status {rc2} outside any case\nstderr: {err2[-3000:]}")
-            key = [l.strip() for l in err2.splitlines() if ('ERROR: AddressSanitizer' in l or 'SUMMARY: AddressSanitizer' in l or 'panicked at' in l or 'unsafe precondition' in l or 'has overflowed its stack' in l or 'memory allocation of' in l)]
+            key = [l.strip() for l in err2.splitlines() if ('Undefined Behavior' in l or 'ERROR: AddressSanitizer' in l or 'SUMMARY: AddressSanitizer' in l or 'panicked at' in l or 'unsafe precondition' in l or 'has overflowed its stack' in l or 'memory allocation of' in l)]
             detail = ' | '.join(key[:3]) if key else err2[-400:].strip()
             crash = {'desc': last, 'what': f"process died while running this case (status {rc2}{', timeout' if rc2 == -999 else ''}): {detail[:700]}", 'stable': True, 'crash': True}
             viols = v2 + [crash]
